@@ -66,9 +66,51 @@ def paragraphs_small_layouts(seed):
                     break
         if len(fails) >= 5:
             break
+    # the same inside detached text flows (footnote, caption): separators
+    # of <= 3 pieces between two words of the argument
+    for mac in ('\\footnote', '\\caption'):
+        for ln in range(0, 4):
+            if len(fails) >= 5:
+                break
+            for combo in itertools.product(range(len(pieces)), repeat=ln):
+                if ln == 3 and (sum(combo) + seed) % 2:
+                    continue
+                sep = ''.join(pieces[i] for i in combo)
+                if 'LTadd' in sep or 'framebox' in sep:
+                    continue
+                src = 'Main' + mac + '{Ccc ' + sep + 'Ddd} text.\n'
+                n += 1
+                try:
+                    got = t2t.tex2txt(src, t2t.Options())[0]
+                except Exception as e:      # noqa
+                    fails.append({'input': src, 'why': repr(e)})
+                    continue
+                m = re.search(r'Ccc((?:.|\n)*)Ddd', got)
+                want_break = bool(re.search(r'\n[ \t]*\n', sep)) or \
+                    '\\par' in sep
+                why = None
+                if not m:
+                    why = 'words of the flow lost: %r' % got
+                else:
+                    mid = m.group(1)
+                    has_break = bool(re.search(r'\n[ \t]*\n', mid))
+                    if mid.strip():
+                        why = 'text between the words: %r' % mid
+                    elif not mid:
+                        why = 'words glued'
+                    elif has_break != want_break:
+                        why = 'paragraph break %s in the detached flow, ' \
+                            'expected %s (output %r)' % (has_break,
+                                                         want_break, got)
+                if why:
+                    fails.append({'input': src, 'why': why})
+                    if len(fails) >= 5:
+                        break
     return {'name': 'paragraph-structure-on-small-layouts', 'bounded': True,
             'bound': 'all separators of <= 2 pieces, a 4th of those with 3 '
-                     'and a 61st of those with 4 pieces over 14 pieces',
+                     'and a 61st of those with 4 pieces over 14 pieces; '
+                     'inside footnote / caption arguments all of <= 2 pieces, half of '
+                     'those with 3',
             'evaluations': n, 'failures': fails}
 
 
